@@ -29,6 +29,9 @@ type SecHarness struct {
 	Schemes map[string]*specgen.SecurityScheme
 	Field   map[string]string // scheme name -> API field name ("" = goag generated no hook)
 	Events  *[]string
+	// WrongSchemeWord: when set, an invalid bearer credential is sent as
+	// "<word> <the valid token>" (another scheme's credential is not a bearer token)
+	WrongSchemeWord string
 }
 
 var authFuncType = reflect.TypeOf(func(*http.Request, string) (*http.Request, bool) { return nil, false })
@@ -96,6 +99,12 @@ func (h *SecHarness) Apply(req *http.Request, creds map[string]refmodel.Cred) {
 		}
 		switch refmodel.SchemeKind(sch) {
 		case "bearer":
+			if c == refmodel.CredInvalid && h.WrongSchemeWord != "" {
+				// an invalid bearer credential may also be the right token under another
+				// authentication scheme word (Basic, Token, ...)
+				req.Header.Set("Authorization", h.WrongSchemeWord+" valid-"+name)
+				break
+			}
 			req.Header.Set("Authorization", "Bearer "+tok)
 		case "apikey-header":
 			req.Header.Set(sch.Name, tok)
@@ -255,6 +264,7 @@ func CheckC11(p *Pkg, e *Env, r *res.Result) {
 		}
 		for _, op := range p.Ops {
 			for vi, creds := range vectors {
+				h.WrongSchemeWord = []string{"", "", "Basic", "Token"}[vi%4]
 				req := httptest.NewRequest(op.Method, "http://h.example"+p.BasePath+concretePath(op.Template), nil)
 				// every other vector of a body-carrying method also has a form-encoded body
 				// whose fields are named like the query api keys and hold the *opposite*
